@@ -237,6 +237,7 @@ def run(ctx):
 
     # ---------------- IDXSPACE
     res.append(rule_idxspace(facts))
+    res.append(rule_ties(facts))
     return res
 
 
@@ -289,15 +290,17 @@ def _index_root(facts, fn, op, at, depth=0):
     return ("other", fn.id, str(o[0]))
 
 
-def rule_idxspace(facts):
+def rule_idxspace(facts, rule="C08-IDXSPACE", only=None, floor=16):
     """SortLayout keeps two index spaces: sort-key positions (columns/column_widths/offsets/heap_mapping) and positions in the
     heap row layout (heap_layout.*), related only through heap_mapping[key] = Some(heap). The ASC/DESC flag, key width and key
     offset of a key must be read with the key position; the heap offset/type with the mapped heap position."""
-    r = RuleResult("C08-IDXSPACE", "no index value is used in both the sort-key and the heap-layout index space of SortLayout; "
-                   "a heap_mapping payload never indexes a key-space vector", floor=16)
+    r = RuleResult(rule, "no index value is used in both the sort-key and the heap-layout index space of SortLayout; "
+                   "a heap_mapping payload never indexes a key-space vector", floor=floor)
     sites = []
     for rec in facts.all_fns(None):
         if rec.get("krate") != "glaredb_core" or SL not in str(rec["bbs"]):
+            continue
+        if only and not only(rec["id"]):
             continue
         fn = Fn(rec)
         for c in fn.calls():
@@ -334,6 +337,61 @@ def rule_idxspace(facts):
         r.inst({"fn": fn.id, "field": field, "space": space, "index_root": root[0]}, bad is None)
         if bad:
             r.violate(fn.id, f"index:{field}", bad + " — ASC/DESC flag, widths or heap offsets of a different column would be used", rec["file"], c.line)
+    return r
+
+
+def rule_ties(facts):
+    """Multi-column / string sorts proceed column by column; `tied_with_next[i]` says rows i and i+1 are still equal on the columns
+    compared so far. The sort may stop early only when no relevant tie is left. The flags examined by that exit test must cover
+    every pair that involves a row that is kept: the whole vector, or a prefix whose length is not smaller than the number of rows
+    kept (pair i needs flag i, so n kept rows need n flags - the pair formed with the first dropped row decides who is kept)."""
+    r = RuleResult("C08-TIES", "the early exit of the column-by-column sort tests every tie flag that involves a kept row (whole vector, or a prefix "
+                   "not shortened by subtraction)", floor=2)
+    for rec in facts.all_fns(["glaredb_core"]):
+        if "::arrays::sort::" not in rec["id"] or "::tests::" in rec["id"]:
+            continue
+        fn = Fn(rec)
+        for c in fn.calls():
+            if not (c.name.endswith("as std::iter::Iterator>::all") and (c.gargs or [""])[0] == "bool" and "slice::Iter" in c.name):
+                continue
+            r.functions.add(fn.id)
+            r.call_sites += 1
+            # iterator ← [bool]::iter(slice) ← slice
+            o = fn.origin(c.args[0], at=c.bb)
+            verdict, how = True, "whole vector"
+            if o[0] == "call" and o[1].name.endswith("::iter"):
+                it = o[1]
+                so = fn.origin(it.args[0], at=it.bb, through_calls=("::deref", "::as_slice"))
+                if so[0] == "call" and (so[1].decl.startswith("std::ops::Index") or so[1].name.endswith("::index") or "get" in so[1].name.rsplit("::", 1)[-1]):
+                    ix = so[1]
+                    how = "prefix/sub-range"
+                    # range bound operands
+                    ro = fn.origin(ix.args[1], at=ix.bb) if len(ix.args) > 1 else None
+                    bounds = []
+                    if ro and ro[0] == "rv" and ro[1][0] == "agg":
+                        bounds = [x for x in ro[1][2]]
+                    shortened = False
+                    for bnd in bounds:
+                        bo = fn.origin(bnd, at=ix.bb, through_calls=("::unwrap", "::unwrap_or", "::expect"))
+                        if bo[0] == "call" and any(k in bo[1].name for k in ("saturating_sub", "checked_sub", "wrapping_sub", "::sub")):
+                            shortened = True
+                        if bo[0] == "rv" and bo[1][0] == "bin" and bo[1][1].startswith("Sub"):
+                            shortened = True
+                        if bo[0] == "local" or (bo[0] == "rv" and len(bo) > 2 and bo[2] and bo[1][0] == "bin"):
+                            # `.0` of a checked subtraction tuple
+                            for d in fn.defs.get(bnd[1][0] if bnd[0] in ("c", "m") else -1, []):
+                                if d[0] == "a" and d[3][0] == "use" and d[3][1][0] in ("c", "m"):
+                                    src = d[3][1][1]
+                                    for d2 in fn.defs.get(src[0], []):
+                                        if d2[0] == "a" and d2[3][0] == "bin" and d2[3][1].startswith("Sub"):
+                                            shortened = True
+                    if not bounds or shortened:
+                        verdict = False
+                        how = "prefix shortened by a subtraction" if shortened else "sub-range with unreadable bounds"
+            r.inst({"fn": fn.id, "line": c.line, "flags_tested": how}, verdict)
+            if not verdict:
+                r.violate(fn.id, "tie-exit-subrange", f"the early exit at line {c.line} tests only part of the tie flags ({how}): a tie between the last kept row and "
+                          "the next one is never examined, so the sort stops with an unresolved group at the cut and an arbitrary member is kept", rec["file"], c.line)
     return r
 
 
